@@ -11,6 +11,8 @@ Abstract state at a program point:
 Container descriptions come from root_desc(): a canonical string for the place an operand denotes after
 following single-assignment temporaries, borrows, derefs and identity-like calls.
 """
+import re
+
 from .core import (
     callee_name, callee_written, const_val, is_const, is_place, norm_name, place_str, proj,
 )
@@ -94,6 +96,41 @@ def root_desc(fn, op, depth=0):
             return None if b is None else b + suffix
         return "_%d%s" % (l, suffix)
     return "_%d%s" % (l, suffix)
+
+
+_SYM_ARR = re.compile(r"^&?(?:mut )?\[.*; ([A-Za-z_][A-Za-z0-9_]*)\]$")
+
+
+def sym_len(fn, op, depth=0):
+    """name of the generic const parameter that is the length of the array `op` denotes (all arrays
+    `[_; C]` inside one generic function have the same, unknown, length C), or None"""
+    if depth > 12:
+        return None
+    if is_const(op):
+        return op["c"].get("gp")
+    if not is_place(op):
+        return None
+    if proj(op):
+        ty = fn.place_ty(op) or ""
+        m = _SYM_ARR.match(ty)
+        return m.group(1) if m else None
+    m = _SYM_ARR.match(fn.local_ty(op["l"]) or "")
+    if m:
+        return m.group(1)
+    d = fn.single_def(op["l"])
+    if d is None or d[2] != "assign":
+        return None
+    rv = d[3]
+    if rv["k"] == "cast" and rv.get("ck", "").startswith("PointerCoercion(Unsize"):
+        m = _SYM_ARR.match(rv.get("from", ""))
+        if m:
+            return m.group(1)
+        return sym_len(fn, rv["a"], depth + 1) if is_place(rv["a"]) else None
+    if rv["k"] == "use" and is_place(rv["a"]):
+        return sym_len(fn, rv["a"], depth + 1)
+    if rv["k"] in ("ref", "rawptr"):
+        return sym_len(fn, rv["p"], depth + 1)
+    return None
 
 
 class St:
@@ -232,6 +269,9 @@ class GF2:
         return out
 
     def len_key(self, op):
+        sym = sym_len(self.fn, op)
+        if sym is not None:
+            return ("LEN", "$" + sym)
         d = root_desc(self.fn, op)
         return None if d is None else ("LEN", d)
 
@@ -314,6 +354,8 @@ class GF2:
     def value(self, st, op):
         """best value set for operand (through alias chain and EQLEN)"""
         best = self._val(st, op)
+        if is_const(op) and op["c"].get("gp") and "v" not in op["c"]:
+            return best.inter(st.get(("LEN", "$" + op["c"]["gp"]))).inter(IS.range(0, 2**63))
         if is_place(op):
             pr = proj(op)
             if len(pr) == 2 and isinstance(pr[0], dict) and pr[0].get("dc") in ("Ok", "Some", "Continue") and isinstance(pr[1], dict) and str(pr[1].get("f")) == "0":
@@ -330,6 +372,10 @@ class GF2:
     def len_aliases(self, st, op):
         """LEN keys whose length operand `op` holds"""
         out = set()
+        if is_const(op):
+            if op["c"].get("gp") and "v" not in op["c"]:
+                out.add(("LEN", "$" + op["c"]["gp"]))
+            return out
         for k in self.alias_chain(op):
             for r in st.rel:
                 if r[0] == "EQLEN" and r[1] == k:
@@ -629,7 +675,7 @@ class GF2:
                 st.iv[k] = IS.range(max(a.lo(), b.lo()), max(a.hi(), b.hi()))
             return
         # chunks_exact(n): every element has length n
-        if cn in ("core::slice::chunks_exact", "core::slice::chunks_exact_mut") and len(t["args"]) == 2:
+        if cn in ("core::slice::chunks_exact", "core::slice::chunks_exact_mut", "core::slice::windows") and len(t["args"]) == 2:
             n = self._val(st, t["args"][1])
             if len(n.iv) == 1 and n.iv[0][0] == n.iv[0][1]:
                 st.rel.add(("CHUNKS", k, int(n.iv[0][0])))
@@ -752,7 +798,7 @@ class GF2:
     def _refine_cmp(self, st, op, a, b):
         va, vb = self.value(st, a), self.value(st, b)
         for (x, y, vy, o) in ((a, b, vb, op), (b, a, va, SWAP[op])):
-            if not is_place(x) or vy.is_empty():
+            if not (is_place(x) or (is_const(x) and x["c"].get("gp") and "v" not in x["c"])) or vy.is_empty():
                 continue
             s = IS.top()
             if o == "Lt" and vy.hi() != INF:
@@ -774,7 +820,9 @@ class GF2:
                 st.refine(k, s)
             for lk in self.len_aliases(st, x):
                 st.refine(lk, s)
-        if is_place(a) and is_place(b):
+        def _symc(o):
+            return is_const(o) and o["c"].get("gp") and "v" not in o["c"]
+        if (is_place(a) or _symc(a)) and (is_place(b) or _symc(b)):
             ka = self.alias_chain(a) + list(self.len_aliases(st, a))
             kb = self.alias_chain(b) + list(self.len_aliases(st, b))
             rel = None
